@@ -43,7 +43,16 @@ ASSUMPTIONS = [
     "(years 1..9999); generators stay within it",
 ]
 TRUSTED = []
-EXPLORED_ONLY = []
+EXPLORED_ONLY = [
+    "ms_of_today(float): modelled on the integer binary64 arithmetic and compared bit for bit (stream ms_of_today), "
+    "no theorem; the oracle only asks |result - exact milliseconds of the day| <= 1 (the code adds the fractional "
+    "second, in seconds, to a millisecond count, so e.g. ms_of_today(100.9995) = 101000, not 100999)",
+    "CPython's datetime.fromtimestamp / timedelta(seconds=float) / float division themselves: transcribed into "
+    "Model/CdsFloat.v and Model/CdsSoftFloat.v and validated by bit-exact correspondence on every run; the theorems "
+    "C14_unix_seconds_close / C14_datetime_exact are about that transcription",
+    "views cached by from_datetime (the datetime passed in and dt.timestamp()): correspondence + oracle only",
+    "naive datetimes / non-UTC tzinfo passed to from_datetime: not generated (local time zone database)",
+]
 
 
 # ---------------------------------------------------------------- marshalling
@@ -281,13 +290,13 @@ def ts_valid(t):
 
 def check_views(sigbase, t, ires, k=1):
     """views at ires[k], ires[k+1], ires[k+2] must be those of the pair t (days, ms):
-    Unix seconds within 2^-20 s of the exact instant, datetime equal at microsecond resolution."""
+    Unix seconds within 2^-21 s of the exact instant, datetime equal at microsecond resolution."""
     d, ms = t
     if ires[k] != [d, ms]:
         return (sigbase + "/fields", "fields %s, expected %s" % (ires[k], [d, ms]))
     exact_ms = (d - 4383) * MSPD + ms
     u = frac_of(ires[k + 1])
-    if abs(u - Fraction(exact_ms, 1000)) > Fraction(1, 2 ** 20):
+    if abs(u - Fraction(exact_ms, 1000)) > Fraction(1, 2 ** 21):
         return ("C14/as_unix_seconds/instant", "(%d, %d): unix seconds %s, exact %s" % (d, ms, float(u), exact_ms / 1000))
     if ires[k + 2] != [exact_ms * 1000]:
         return ("C14/as_datetime/instant", "(%d, %d): datetime us %s, exact %d" % (d, ms, ires[k + 2], exact_ms * 1000))
